@@ -383,6 +383,18 @@ def r5(db, rep):
                     rep.violation("R5-storage-arms", key, facts.loc(f, x),
                                   "%s decides the storage arm with `%s` while the other members use `size > %d` <=> heap: for a payload of exactly %d bytes "
                                   "the inline bytes are treated as a pointer (or the pointer as bytes)" % (f["qual"].split("::")[-1], facts.expr_str(x), K, K))
+    # a named predicate wrapping the comparison is one test site per call (the comparison itself was judged above)
+    from vlib import cond as _cond
+    for fid, f in sorted(db.functions.items()):
+        if f.get("rec") != rn or not f.get("body"):
+            continue
+        for x in facts.fn_nodes(f):
+            if x["k"] == "CXXMemberCallExpr" and x.get("callee") and not x.get("ext"):
+                pe = _cond.predicate_return(db, x["callee"])
+                if pe is not None and pe[0].get("rec") == rn and "small_buffer_size" in facts.expr_str(pe[1]):
+                    n += 1
+                    rep.ok("R5-storage-arms", "%s#%d" % (f["qual"].split("::")[-1] + ("" if f["kind"] != "ctor" else ":ctor"), n), facts.loc(f, x),
+                           "decided by the named predicate %s() (its comparison is judged where it is written)" % pe[0]["name"].split("::")[-1])
     if n < 6:
         rep.analysis_broken("only %d storage-arm tests found in PDUOption" % n)
 
